@@ -43,6 +43,11 @@ int ep_cmp(const ep_t p, const ep_t q) {
 		return RLC_EQ;
 	}
 
+	if (ep_is_infty(p) || ep_is_infty(q)) {
+		/* Cross-multiplying by a zero z would make any point equal. */
+		return RLC_NE;
+	}
+
 	ep_null(r);
 	ep_null(s);
 
